@@ -313,7 +313,7 @@ func genQueuePlan(t *rapid.T) QueuePlan {
 		Universe: rapid.SampledFrom([]int{1, 2, 3, 8, 16, 24}).Draw(t, "universe")}
 	ni := rapid.SampledFrom([]int{0, 1, 2, 5, 12, 30}).Draw(t, "ninit")
 	for i := 0; i < ni; i++ {
-		p.Initial = append(p.Initial, KPi{K: rapid.IntRange(1, p.Universe).Draw(t, "ik"), P: genPri(t, wide)})
+		p.Initial = append(p.Initial, KPi{K: rapid.IntRange(0, p.Universe-1).Draw(t, "ik"), P: genPri(t, wide)})
 	}
 	n := rapid.IntRange(1, 60).Draw(t, "nops")
 	for i := 0; i < n; i++ {
@@ -364,7 +364,7 @@ func (r *qrun) resolve(s KeySel) (key int, class string) {
 	switch s.Mode {
 	case "new":
 		for d := 0; d < r.universe; d++ {
-			k := 1 + (s.Arg+d)%r.universe
+			k := (s.Arg + d) % r.universe // keys 0..universe-1: the zero value is an ordinary key
 			if _, ok := r.model[k]; !ok {
 				return k, "new"
 			}
@@ -374,7 +374,7 @@ func (r *qrun) resolve(s KeySel) (key int, class string) {
 		ks := r.arrayOrder()
 		n := len(ks)
 		if n == 0 {
-			return 1 + s.Arg%r.universe, "new"
+			return s.Arg % r.universe, "new"
 		}
 		lastInner := (n - 2) / 2 // last index with a child
 		switch s.Pos {
@@ -393,7 +393,7 @@ func (r *qrun) resolve(s KeySel) (key int, class string) {
 		}
 		return ks[s.Arg%n], "any"
 	}
-	k := 1 + s.Arg%r.universe
+	k := s.Arg % r.universe
 	if _, ok := r.model[k]; ok {
 		return k, "any"
 	}
@@ -417,7 +417,7 @@ func (r *qrun) observe(what string) error {
 	if r.q.Len() != len(r.model) {
 		return vk.Violf("len", "%s: Len()=%d model %d", what, r.q.Len(), len(r.model))
 	}
-	for k := 0; k <= r.universe+4; k++ {
+	for k := -1; k <= r.universe+4; k++ {
 		p, ok := r.model[k]
 		if got := r.q.Contains(k); got != ok {
 			return vk.Violf("contains", "%s: Contains(%d)=%v want %v", what, k, got, ok)
